@@ -547,10 +547,19 @@ func (a *AttributeExpr) SetDefault(def any) {
 // its bases and references. If the parent attribute is not an object, it
 // returns nil.
 func (a *AttributeExpr) Find(name string) *AttributeExpr {
+	return a.find(name, make(map[*AttributeExpr]struct{}))
+}
+
+// find implements Find, seen guards against cyclical bases and references.
+func (a *AttributeExpr) find(name string, seen map[*AttributeExpr]struct{}) *AttributeExpr {
+	if _, ok := seen[a]; ok {
+		return nil
+	}
+	seen[a] = struct{}{}
 	findAttrFn := func(typ DataType) *AttributeExpr {
 		switch t := typ.(type) {
 		case UserType:
-			return t.Attribute().Find(name)
+			return t.Attribute().find(name, seen)
 		case *Object:
 			if att := t.Attribute(name); att != nil {
 				return att
@@ -998,9 +1007,18 @@ func (*AttributeExpr) IsSupportedValidationFormat(vf ValidationFormat) bool {
 // bases and references are only merged during Finalize. It is not a recursive
 // implementation.
 func walkAttribute(att *AttributeExpr, it func(name string, a *AttributeExpr) error) error {
+	return walkAttributeSeen(att, it, make(map[*AttributeExpr]struct{}))
+}
+
+// walkAttributeSeen implements walkAttribute, seen guards against cyclical bases and references.
+func walkAttributeSeen(att *AttributeExpr, it func(name string, a *AttributeExpr) error, seen map[*AttributeExpr]struct{}) error {
+	if _, ok := seen[att]; ok {
+		return nil
+	}
+	seen[att] = struct{}{}
 	switch dt := att.Type.(type) {
 	case UserType:
-		if err := walkAttribute(dt.Attribute(), it); err != nil {
+		if err := walkAttributeSeen(dt.Attribute(), it, seen); err != nil {
 			return err
 		}
 	case *Object:
@@ -1011,12 +1029,12 @@ func walkAttribute(att *AttributeExpr, it func(name string, a *AttributeExpr) er
 		}
 	}
 	for _, b := range att.Bases {
-		if err := walkAttribute(&AttributeExpr{Type: b}, it); err != nil {
+		if err := walkAttributeSeen(&AttributeExpr{Type: b}, it, seen); err != nil {
 			return err
 		}
 	}
 	for _, r := range att.References {
-		if err := walkAttribute(&AttributeExpr{Type: r}, it); err != nil {
+		if err := walkAttributeSeen(&AttributeExpr{Type: r}, it, seen); err != nil {
 			return err
 		}
 	}
